@@ -96,6 +96,7 @@ class Registry:
         self.const_overrides = {}
         self.spec_natives = {}
         self.model_classes = {}
+        self.views = {}
         dirs = contract_dirs or [os.path.join(VERIF_ROOT, "contracts")]
         for d in dirs:
             for p in sorted(glob.glob(os.path.join(d, "**", "*.py"), recursive=True)):
@@ -144,6 +145,8 @@ class Registry:
                     self.opaques[name] = OpaqueClass(name, opts)
                 elif fn == "ghost":
                     self.declare_ghost(_lit(st.value.args[0]), _lit(st.value.args[1]), _lit(st.value.args[2]))
+                elif fn == "view":
+                    self.views[(_lit(st.value.args[0]), _lit(st.value.args[1]))] = _lit(st.value.args[2])
                 elif fn == "ext_base":
                     a, b = _lit(st.value.args[0]), _lit(st.value.args[1])
                     self.ext_bases.setdefault(a, []).append(b)
@@ -204,6 +207,12 @@ class Registry:
                     return k
         return None
 
+    def view_for(self, cls: ClassInfo, name):
+        for c in cls.mro():
+            if isinstance(c, ClassInfo) and (c.qualname, name) in self.views:
+                return self.views[(c.qualname, name)]
+        return None
+
     def model_class(self, name):
         return self.model_classes.get(name)
 
@@ -224,8 +233,14 @@ class Registry:
 
                 return it.ev(sm.consts[name], Env(sm, {}))
         if name in self.spec_natives:
-            return VNative(self.spec_natives[name], name)
+            fn = self.spec_natives[name]
+            if name in self.ghosts_names():
+                return VNative(fn, name)
+            return VNative(lambda it_, a, k, fn=fn: fn(it_, [x.val if isinstance(x, VOpt) else x for x in a], k), name)
         return None
+
+    def ghosts_names(self):
+        return getattr(self, "ghosts", {})
 
     def resolve_exception(self, it, contract, en):
         """Exception class named in a contract (raises_X / may_raise)."""
